@@ -417,7 +417,7 @@ func cfProgram(c *core.Ctx, depth int) *gen.Program {
 	var all []gen.Stmt
 	ng := len(g.globals)
 	all = append(all, top[:ng]...) // global declarations first: every function body may use them
-	if g.r.Intn(2) == 0 { // functions defined after their first use
+	if g.r.Intn(2) == 0 {          // functions defined after their first use
 		all = append(all, top[ng:]...)
 		all = append(all, probes...)
 		all = append(all, defs...)
